@@ -164,6 +164,11 @@ Definition line_add_obj (l : cline) (t : ctext) : cline :=
 Definition line_indent (l : cline) (n : Z) : cline := mkL (l_row l) (l_indent l + n) (l_cursor l) (l_texts l) (l_cur l).
 Definition line_set_row (l : cline) (r : Z) : cline := mkL r (l_indent l) (l_cursor l) (l_texts l) (l_cur l).
 Definition line_clear (l : cline) : cline := line_set_cursor (mkL (l_row l) (l_indent l) (l_cursor l) [text_new] 0) 0.
+(* SccCaptionText.truncate / SccCaptionLine.delete_to_end (Delete to End of Row): the texts after the current one are
+   removed and the current one is cut at its cursor *)
+Definition text_truncate (t : ctext) : ctext := mkT (t_begin t) (py_to (t_text t) (Z.max (t_cur t) 0)) (t_cur t) (t_sty t).
+Definition line_delete_to_end (l : cline) : cline :=
+  mkL (l_row l) (l_indent l) (l_cursor l) (upd_nth (l_cur l) text_truncate (firstn (S (l_cur l)) (l_texts l))) (l_cur l).
 (* get_leading_spaces / get_trailing_spaces (with their double counting when every text is blank) *)
 Fixpoint lead_loop (ts : list ctext) (first : text) (acc : Z) : Z * text :=
   match ts with
@@ -220,10 +225,13 @@ Definition new_caption_line (p : para) : para :=
 (* new_caption_text *)
 Definition new_caption_text (p : para) : para := upd_cur_line p (fun l => line_add_obj l text_new).
 (* _update_current_line_cursor *)
+(* the gap between the end of the line and the new cursor position is filled with a text element of spaces *)
 Definition update_line_cursor (p : para) : para :=
   let np := snd (p_cursor p) - l_indent (cur_line p) in
   let p1 := if np <? 0 then upd_cur_line p (fun l => line_indent l np) else p in
-  upd_cur_line p1 (fun l => line_set_cursor l np).
+  let gap := np - line_length (cur_line p1) in
+  let p2 := if 0 <? gap then upd_cur_line p1 (fun l => line_add_obj l (text_of (spaces gap))) else p1 in
+  upd_cur_line p2 (fun l => line_set_cursor l np).
 (* indent_cursor *)
 Definition indent_cursor (p : para) (n : Z) : para :=
   let p1 := set_cursor p (fst (p_cursor p), snd (p_cursor p) + n) in
@@ -500,10 +508,12 @@ Definition process_mid_row (c : ctx) (d : dec) : ctx :=
             else upd_cap c (fun p => append_text p [32])
         | None => c
         end in
-      with_attrs c' color ita und
+      (* the italics codes carry no colour: the current colour remains *)
+      with_attrs c' (if color =? -1 then c_color c else color) ita und
     else
-      let c' := with_attrs c (if color =? -1 then c_color c else color) (if ita then true else c_italic c)
-                           (if und then true else c_under c) in
+      (* a mid-row code directly after another one: the attributes are set as for the first one (since the repair of
+         consecutive-midrow-codes-merge), the space is appended and a new text element follows *)
+      let c' := with_attrs c (if color =? -1 then c_color c else color) ita und in
       upd_cap c' (fun p => new_caption_text (append_text p [32])) in
   match cap_to_process c1 with
   | Some p => if p_style p =? sPaintOn then upd_cap c1 (fun p => upd_cur_text p (fun x => text_set_begin x t)) else c1
@@ -540,7 +550,7 @@ Definition process_text (c : ctx) (word : text) : ctx :=
           then upd_act (paint_on_active_caption c1 t) (fun a => append_text a word)
           else upd_act c1 (fun a => upd_cur_text (append_text (new_caption_text a) word) (fun x => text_set_begin x t))
         else if ends_with_space word then
-          let c' := upd_act c1 (fun a => append_text a word) in
+          let c' := upd_act c1 (fun a => style_cur_text c1 (append_text a word)) in
           if negb (act_is_paint c')
           then paint_on_active_caption c' t
           else upd_act c' (fun a => upd_cur_text (new_caption_text a) (fun x => text_set_begin x t))
@@ -590,12 +600,18 @@ Definition process_control (c : ctx) (code : Z) : ctx :=
         if negb (p_style a =? sRollUp) then push_active c (Some t) true
         else
           let '(c1, previous_lines) :=
-            if is_nil (t_text (cur_text a)) then (with_count c (c_count c - 1), [])
+            (* the displayed caption holds no text at all (since the repair of rollup-blank-line-drops-rows; it was: the current text is empty) *)
+            if para_is_empty a then (with_count c (c_count c - 1), [])
             else
               let c1 := upd_act (push_active c (Some t) false) roll_up in
               (c1, match c_act c1 with Some a1 => last_lines a1 (c_depth c1 - 1) | None => [] end) in
           let c2 := new_active_caption c1 t sRollUp in
           upd_act c2 (fun a => set_cursor_at (set_lines_list a previous_lines) roll_up_base_row (-1))
+    end
+  else if code =? kDER then
+    match cap_to_process c with
+    | None => c
+    | Some _ => upd_cap c (fun p => upd_cur_line p line_delete_to_end)
     end
   else if code =? kBS then backspace c
   else c.
@@ -607,10 +623,10 @@ Definition step (c : ctx) (w : Z) : ctx :=
   let dup := match c_prev c with Some pv => (pv =? v) && is_code (pv / 256) | None => false end in
   if dup then with_prev c None else
   let c := with_tc c (tc_next (c_tc c)) in
-  if v =? 0 then c else
+  if v =? 0 then with_prev c None else
   if byte1 w <? 32 then
     let d := decode w in
-    if negb (d_chan d =? 1) then with_chan c (d_chan d) else
+    if negb (d_chan d =? 1) then with_prev (with_chan c (d_chan d)) None else
     let c := with_chan c 1 in
     let c :=
       if d_cls d =? cPac then with_prev_type (process_pac c d) cPac
@@ -622,7 +638,7 @@ Definition step (c : ctx) (w : Z) : ctx :=
       else with_prev_type c (-1) in
     with_prev c (Some v)
   else
-    if negb (c_chan c =? 1) then c else
+    if negb (c_chan c =? 1) then with_prev c None else
     with_prev (with_prev_type (process_text c (to_text w)) cChars) (Some v).
 
 (* ------------------------------------------------------------------ SccLine.from_str *)
@@ -667,6 +683,30 @@ Definition from_str (line : text) : parsed :=
       | None => LErr
       end
   end.
+
+(* SccLine.get_style: the caption style announced by the first style-selecting control code of the line (SccControlCode.find
+   knows the codes of both channels and both fields) *)
+Fixpoint line_style (ws : list Z) : Z :=
+  match ws with
+  | [] => sUnknown
+  | w :: ws' =>
+      match find_control control_codes (value w) with
+      | Some (id, _) => if (id =? kRU2) || (id =? kRU3) || (id =? kRU4) then sRollUp
+                        else if id =? kRDC then sPaintOn else if id =? kRCL then sPopOn else line_style ws'
+      | None => line_style ws'
+      end
+  end.
+(* scc/config.py TextAlignment.from_value on a str: the label is compared after str.lower().  Only the ASCII letters are
+   lowered here: no other code point is lowered by Python to one of the letters of "left", "center", "right", "auto", so a
+   string with such a code point matches no label on either side.  Result: the configuration index used by ctx_init
+   (auto 0, left 1, center 2, right 3); None where Python raises ValueError. *)
+Definition lower_ascii (c : Z) : Z := if (65 <=? c) && (c <=? 90) then c + 32 else c.
+Definition text_align_of (s : text) : option Z :=
+  let l := map lower_ascii s in
+  if text_eqb l [108; 101; 102; 116] then Some 1
+  else if text_eqb l [99; 101; 110; 116; 101; 114] then Some 2
+  else if text_eqb l [114; 105; 103; 104; 116] then Some 3
+  else if text_eqb l [97; 117; 116; 111] then Some 0 else None.
 
 (* ------------------------------------------------------------------ reader.to_model *)
 Definition process_line (c : ctx) (line : text) : ctx :=
